@@ -111,7 +111,7 @@ SK_T = S("search-keep", "keep", 400, 4)
 
 PROPS["C14"] = {
     "module": "RCE.Props.C14chess",
-    "theorems": ["RCE.Props.C14.info_depths", "RCE.Props.C14.depth_limit_complete", "RCE.Props.C14.pv_legal", "RCE.Props.C14.pv_nonempty", "RCE.Props.C14.chess_pv_legal_by_the_rules", "RCE.Props.C14.chess_pv_nonempty"],
+    "theorems": ["RCE.Props.C14.info_depths", "RCE.Props.C14.depth_limit_complete", "RCE.Props.C14.pv_legal", "RCE.Props.C14.pv_nonempty", "RCE.Props.C14.info_score_present", "RCE.Props.C14.chess_pv_legal_by_the_rules", "RCE.Props.C14.chess_pv_nonempty"],
     "streams": {"quick": [SP_Q, S("search-budget", "budget", 16, 2, extra=["--step", 7, "--maxcases", 40]), S("search-game", "game", 48, 4, extra=["--plies", 8])],
                 "thorough": [SP_T, S("search-budget", "budget", 64, 3, extra=["--step", 11, "--maxcases", 300]), SK_T, S("search-game", "game", 400, 5, extra=["--plies", 12])]},
     "eval_key": "cases", "distinct_key": "distinct_cases",
